@@ -139,6 +139,101 @@ pub fn run_level(store: &AnnotationStore, lvl: &Lvl, env: &[(String, It)], form:
     }
 }
 
+/// The level with its first constraint given as a *handle collection* (`Constraint::Annotations` / `Resources`) where
+/// the constraint has an obvious equivalent of that kind: `ID x` / `[ ID a OR ID b ]` in an ANNOTATION query are the
+/// annotations a, b themselves (`Annotations(.., Normal, AnnotationDepth::Zero)`), in a RESOURCE query
+/// `Resources(..)`; `ANNOTATION [AS METADATA] x` / `[ ANNOTATION a OR ANNOTATION b ]` in an ANNOTATION, DATA or KEY
+/// query is `Annotations(.., qualifier, AnnotationDepth::One)`. None: no such equivalent (or an id does not resolve).
+pub fn run_level_collection(store: &AnnotationStore, lvl: &Lvl, env: &[(String, It)]) -> Option<(Ans, String)> {
+    let first = lvl.cons.first()?;
+    let arms: Vec<&CC> = match first {
+        CC::Union(arms) => arms.iter().collect(),
+        c => vec![c],
+    };
+    let rt = lvl.rtype % 6;
+    let coll: Constraint;
+    let desc: String;
+    if arms.iter().all(|a| matches!(a, CC::Id { .. })) {
+        let ids: Vec<&str> = arms.iter().map(|a| if let CC::Id { id } = a { id.as_str() } else { "" }).collect();
+        match rt {
+            T_ANN => {
+                let mut hs: Vec<AnnotationHandle> = vec![];
+                for id in ids {
+                    let h = store.annotation(id)?.handle();
+                    if !hs.contains(&h) {
+                        hs.push(h);
+                    }
+                }
+                desc = format!("Constraint::Annotations({:?}, Normal, Zero)", hs.iter().map(|h| h.as_usize()).collect::<Vec<_>>());
+                coll = Constraint::Annotations(Handles::from_iter(hs.into_iter(), store), SelectionQualifier::Normal, AnnotationDepth::Zero);
+            }
+            T_RES => {
+                let mut hs: Vec<TextResourceHandle> = vec![];
+                for id in ids {
+                    let h = store.resource(id)?.handle();
+                    if !hs.contains(&h) {
+                        hs.push(h);
+                    }
+                }
+                desc = format!("Constraint::Resources({:?}, Normal)", hs.iter().map(|h| h.as_usize()).collect::<Vec<_>>());
+                coll = Constraint::Resources(Handles::from_iter(hs.into_iter(), store), SelectionQualifier::Normal);
+            }
+            _ => return None,
+        }
+    } else if matches!(rt, T_ANN | T_DATA | T_KEY) {
+        let mut hs: Vec<AnnotationHandle> = vec![];
+        let mut qual: Option<bool> = None;
+        for a in &arms {
+            match a {
+                CC::Annotation { id, meta, rec: false, .. } => {
+                    if qual.is_some() && qual != Some(*meta) {
+                        return None;
+                    }
+                    qual = Some(*meta);
+                    let h = store.annotation(id.as_str())?.handle();
+                    if !hs.contains(&h) {
+                        hs.push(h);
+                    }
+                }
+                _ => return None,
+            }
+        }
+        let meta = qual?;
+        desc = format!("Constraint::Annotations({:?}, {}, One)", hs.iter().map(|h| h.as_usize()).collect::<Vec<_>>(), if meta { "Metadata" } else { "Normal" });
+        coll = Constraint::Annotations(
+            Handles::from_iter(hs.into_iter(), store),
+            if meta { SelectionQualifier::Metadata } else { SelectionQualifier::Normal },
+            AnnotationDepth::One,
+        );
+    } else {
+        return None;
+    }
+    let r = catch(|| {
+        let mut q = Query::new(QueryType::Select, Some(rtype_of(lvl.rtype)), Some(lvl.name.as_str())).with_constraint(coll);
+        for c in &lvl.cons[1..] {
+            q = q.with_constraint(c.build());
+        }
+        for (name, it) in env {
+            match materialise(store, it) {
+                Some(item) => q.bind_from_result(name.as_str(), &item),
+                None => return Err(format!("context item {} does not exist", it.show())),
+            }
+        }
+        match store.query(q) {
+            Ok(iter) => Ok(collect_rows(iter, 1)),
+            Err(e) => Err(format!("query: {}", e)),
+        }
+    });
+    Some((
+        match r {
+            Ok(Ok(rows)) => Ans::Rows(rows),
+            Ok(Err(e)) => Ans::Err(e),
+            Err(p) => Ans::Panic(p),
+        },
+        desc,
+    ))
+}
+
 // ------------------------------------------------------------------------------------------
 // which (result type, constraint, position) combinations the engine implements
 // (transcribed from init_state_* / update_state_* of src/api/query.rs; used to classify, never as an oracle:
